@@ -35,6 +35,8 @@ type C03Op struct {
 }
 
 type C03Case struct {
+	// Sched: schedule vector for goroutines / channels / select choices of the code under test (single-task case body = first task)
+	Sched   []uint16 `json:"sched,omitempty"`
 	DBs     [][]Cmd  `json:"dbs"`
 	Queries []string `json:"queries"`
 	Options []Opts   `json:"options"`
@@ -114,6 +116,9 @@ func genC03(rt *rapid.T) C03Case {
 		return op
 	})
 	c.Ops = rapid.SliceOfN(opGen, 1, tierN(25, 60)).Draw(rt, "ops")
+	if rapid.IntRange(0, 3).Draw(rt, "hassched") == 0 {
+		c.Sched = genSchedule(rt, 40)
+	}
 	return c
 }
 
@@ -182,6 +187,10 @@ func refIndex(cmds []database.Command) ([]refDoc, [4]float64, map[string]int) {
 }
 
 func runC03(c C03Case) *Outcome {
+	return scheduledOutcome(c.Sched, func() *Outcome { return runC03Body(c) })
+}
+
+func runC03Body(c C03Case) *Outcome {
 	o := &Outcome{Probes: map[string]int{}}
 	if c.Big > 0 && len(c.DBs) > 0 && len(c.DBs[0]) > 0 {
 		base := c.DBs[0]
